@@ -704,3 +704,85 @@ func extraPodDims(r *kit.Rand, p *corev1.Pod, o GenOpts) {
 		p.Spec.Affinity.PodAntiAffinity.RequiredDuringSchedulingIgnoredDuringExecution = []corev1.PodAffinityTerm{{TopologyKey: corev1.LabelHostname, LabelSelector: sel}}
 	}
 }
+
+// GenDaemonTight builds a world aimed at the daemon reservation of existing nodes: 2-4 existing / in-flight / registering /
+// unmanaged nodes that every daemonset is compatible with (daemonsets without selector that tolerate everything), the
+// daemon pods already bound on SOME of the registered nodes only, and pending pods sized against
+// available - outstanding daemon overhead of a node (exactly fitting, one milli above, and up to the raw available).
+func GenDaemonTight(r *kit.Rand) *World {
+	w := &World{}
+	w.Catalog = GenCatalog(r, r.Range(3, 4))
+	w.Pools = []*v1.NodePool{test.NodePool(v1.NodePool{ObjectMeta: metav1.ObjectMeta{Name: "pool-0", UID: "uid-pool-0"}})}
+	for tries := 0; len(w.Nodes) < 2 && tries < 20; tries++ {
+		w.Nodes = nil
+		for _, n := range genNodes(r, 4, w, tries%2 == 0) {
+			if n.Kind != "deleting" {
+				w.Nodes = append(w.Nodes, n)
+			}
+		}
+	}
+	cpuOf := map[string]int64{}
+	for i := 0; i < r.Range(1, 2); i++ {
+		name := fmt.Sprintf("ds-%d", i)
+		cpu := int64(kit.Pick(r, []int{250, 500, 1000}))
+		cpuOf[name] = cpu
+		spec := corev1.PodSpec{Tolerations: []corev1.Toleration{{Operator: corev1.TolerationOpExists}},
+			Containers: []corev1.Container{{Name: "d", Image: "pause", Resources: corev1.ResourceRequirements{Requests: RLOf(cpu, 32, -1)}}}}
+		w.DaemonSets = append(w.DaemonSets, &appsv1.DaemonSet{ObjectMeta: metav1.ObjectMeta{Name: name, Namespace: "default", UID: types.UID("uid-" + name)},
+			Spec: appsv1.DaemonSetSpec{Selector: &metav1.LabelSelector{MatchLabels: map[string]string{"ds": name}},
+				Template: corev1.PodTemplateSpec{ObjectMeta: metav1.ObjectMeta{Labels: map[string]string{"ds": name}}, Spec: spec}}})
+	}
+	// daemon pods run on some registered nodes; make sure at least one node runs them all and another one runs none
+	registered := 0
+	for _, n := range w.Nodes {
+		if n.Node == nil {
+			continue
+		}
+		registered++
+		for _, ds := range w.DaemonSets {
+			if registered == 1 || (registered > 2 && r.Bool()) {
+				n.DSBound[ds.Name] = true
+			}
+		}
+	}
+	k := 0
+	for _, n := range w.Nodes {
+		var alloc corev1.ResourceList
+		if n.Node != nil {
+			alloc = n.Node.Status.Allocatable
+		} else {
+			alloc = n.NodeClaim.Status.Allocatable
+		}
+		avail := alloc.Cpu().MilliValue()
+		for _, b := range n.Bound {
+			avail -= b.Spec.Containers[0].Resources.Requests.Cpu().MilliValue()
+		}
+		outstanding := int64(0)
+		for _, ds := range w.DaemonSets {
+			if n.DSBound[ds.Name] {
+				avail -= cpuOf[ds.Name]
+			} else {
+				outstanding += cpuOf[ds.Name]
+			}
+		}
+		if outstanding == 0 || avail-outstanding < 100 {
+			continue
+		}
+		for _, delta := range []int64{0, kit.Pick(r, []int64{1, outstanding / 2, outstanding})} {
+			if r.Chance(1, 4) {
+				continue
+			}
+			name := fmt.Sprintf("t%d", k)
+			p := &corev1.Pod{ObjectMeta: metav1.ObjectMeta{Name: name, Namespace: "default", UID: types.UID("uid-" + name), Labels: map[string]string{"app": "tight"}},
+				Status: corev1.PodStatus{Phase: corev1.PodPending, Conditions: []corev1.PodCondition{{Type: corev1.PodScheduled, Status: corev1.ConditionFalse, Reason: corev1.PodReasonUnschedulable}}}}
+			p.Spec = corev1.PodSpec{Tolerations: []corev1.Toleration{{Operator: corev1.TolerationOpExists}},
+				Containers: []corev1.Container{{Name: "c", Image: "pause", Resources: corev1.ResourceRequirements{Requests: RLOf(avail-outstanding+delta, 16, -1)}}}}
+			w.Pods = append(w.Pods, p)
+			k++
+		}
+	}
+	if len(w.Pods) == 0 {
+		w.Pods = append(w.Pods, GenPod(r, "t0", w, GenOpts{NoTopology: true}))
+	}
+	return w
+}
